@@ -983,6 +983,55 @@ type webResp struct {
 	Body   string
 	Header http.Header
 	Panic  string
+	Broken bool // the client went away: Body is what was delivered before
+}
+
+// splitAbort recognises the request notation "!N!/path?query": the client
+// goes away after N bytes of the response body (every later Write fails with
+// EPIPE, the failing one delivers the bytes that still fit).
+func splitAbort(target string) (string, int) {
+	if strings.HasPrefix(target, "!") {
+		if j := strings.Index(target[1:], "!"); j >= 0 {
+			if n, err := strconv.Atoi(target[1 : 1+j]); err == nil {
+				return target[j+2:], n
+			}
+		}
+	}
+	return target, -1
+}
+
+type brokenWriter struct {
+	hdr    http.Header
+	code   int
+	left   int
+	body   bytes.Buffer
+	failed bool
+}
+
+func (w *brokenWriter) Header() http.Header { return w.hdr }
+func (w *brokenWriter) WriteHeader(c int) {
+	if w.code == 0 {
+		w.code = c
+	}
+}
+func (w *brokenWriter) Write(p []byte) (int, error) {
+	if w.code == 0 {
+		w.code = 200
+	}
+	simrt.Point("net-write", int64(len(p)))
+	if len(p) <= w.left && !w.failed {
+		w.left -= len(p)
+		w.body.Write(p)
+		return len(p), nil
+	}
+	n := 0
+	if !w.failed {
+		n = w.left
+		w.body.Write(p[:n])
+		w.left = 0
+	}
+	w.failed = true
+	return n, fmt.Errorf("write tcp 127.0.0.1:8080->127.0.0.1:51234: write: broken pipe")
 }
 
 func serve(h http.Handler, target string) (resp webResp) {
@@ -994,7 +1043,16 @@ func serve(h http.Handler, target string) (resp webResp) {
 			resp.Panic = fmt.Sprintf("%v\n%s", r, debug.Stack())
 		}
 	}()
+	target, abortAfter := splitAbort(target)
 	req := httptest.NewRequest("GET", target, nil)
+	if abortAfter >= 0 {
+		w := &brokenWriter{hdr: http.Header{}, left: abortAfter}
+		h.ServeHTTP(w, req)
+		if w.code == 0 {
+			w.code = 200
+		}
+		return webResp{Code: w.code, Body: w.body.String(), Header: w.hdr, Broken: w.failed}
+	}
 	w := httptest.NewRecorder()
 	h.ServeHTTP(w, req)
 	return webResp{Code: w.Code, Body: w.Body.String(), Header: w.Header()}
